@@ -94,11 +94,227 @@ Proof.
   pose proof (pow2_le w nw ltac:(lia)) as Hle.
   assert (Hnwp : 2 ^ nw = 2 ^ (nw - w) * 2 ^ w) by (rewrite <- Z.pow_add_r by lia; f_equal; lia).
   pose proof (pow2_pos (nw - w) ltac:(lia)) as Hp2.
-  unfold sgn, py_shl. destruct (Z.leb_spec (2 ^ (w - 1)) u) as [Hge | Hlt]; cbn [b2z Z.eqb].
+  unfold sgn, py_shl. destruct (Z.leb_spec (2 ^ (w - 1)) u) as [Hge | Hlt]; cbn [b2z Z.eqb Pos.eqb]; clearbody u.
   - destruct (Z.ltb_spec u (2 ^ (w - 1))); [lia|].
     rewrite lor_comm_add by lia.
     set (A := 2 ^ (nw - w)) in *. set (B := 2 ^ w) in *. rewrite Hnwp.
     apply Z.mod_unique with (-1); [left; nia | ring].
   - destruct (Z.ltb_spec u (2 ^ (w - 1))); [|lia].
     rewrite Z.shiftl_0_l, Z.lor_0_r. symmetry; apply Z.mod_small; lia.
+Qed.
+
+(* ------------------------------------------------------------------ FixedPoint on raw encodings *)
+Lemma intToFixedPoint_spec sw iw fw v : 0 <= sw -> 1 <= iw -> 0 <= fw ->
+  (0 <= v \/ sw <> 0) -> v <= 2 ^ (iw - 1) ->
+  FixedPoint_intToFixedPoint sw iw fw v = Some (fx_of_int_spec (fx_width sw iw fw) fw v).
+Proof.
+  intros Hs Hi Hf Hv Hmax. unfold FixedPoint_intToFixedPoint, fx_of_int_spec, fx_width.
+  replace ((v <? 0) && (sw =? 0)) with false by (destruct Hv; lia).
+  replace (iw - 1 <? 0) with false by lia. cbv zeta. rewrite shl1 by lia.
+  replace (v >? 2 ^ (iw - 1)) with false by lia.
+  f_equal. change (Z.land ?x (py_shl 1 ?w - 1)) with (trunc w x). rewrite trunc_mod by lia.
+  unfold py_shl; rewrite shiftl_mul by lia. reflexivity.
+Qed.
+
+Lemma fx_zero_ok sw iw fw : 0 <= sw -> 1 <= iw -> 0 <= fw ->
+  exists z, FixedPoint_intToFixedPoint sw iw fw 0 = Some z.
+Proof.
+  intros. eexists. apply intToFixedPoint_spec; lia.
+Qed.
+
+Lemma fx_add_ok sw iw fw a b : 0 <= sw -> 1 <= iw -> 0 <= fw ->
+  FixedPoint_add sw iw fw a b = Some (fx_add_spec (fx_width sw iw fw) a b).
+Proof.
+  intros Hs Hi Hf. unfold FixedPoint_add. destruct (fx_zero_ok sw iw fw Hs Hi Hf) as [z ->].
+  cbv zeta. f_equal. apply (trunc_mod (sw + iw + fw) (a + b)); lia.
+Qed.
+
+Lemma fx_sub_ok sw iw fw a b : 0 <= sw -> 1 <= iw -> 0 <= fw ->
+  FixedPoint_sub sw iw fw a b = Some (fx_sub_spec (fx_width sw iw fw) a b).
+Proof.
+  intros Hs Hi Hf. unfold FixedPoint_sub. destruct (fx_zero_ok sw iw fw Hs Hi Hf) as [z ->].
+  cbv zeta. f_equal. apply (trunc_mod (sw + iw + fw) (a - b)); lia.
+Qed.
+
+(* P = X modulo 2^n, n >= fw + w : dropping fw low bits and keeping w bits gives the same *)
+Lemma div_mod_cong P X K n fw w : 0 <= fw -> 0 <= w -> fw + w <= n -> P = X + K * 2 ^ n ->
+  (P / 2 ^ fw) mod 2 ^ w = (X / 2 ^ fw) mod 2 ^ w.
+Proof.
+  intros Hf Hw Hn ->.
+  replace (2 ^ n) with (2 ^ (n - fw - w) * 2 ^ w * 2 ^ fw)
+    by (rewrite <- !Z.pow_add_r by lia; f_equal; lia).
+  rewrite !Z.mul_assoc. rewrite Z.div_add by (apply Z.pow_nonzero; lia).
+  rewrite Z.mod_add by (apply Z.pow_nonzero; lia). reflexivity.
+Qed.
+
+Lemma fx_mult_ok sw iw fw a b : 0 <= sw -> 1 <= iw -> 0 <= fw ->
+  FixedPoint_mult sw iw fw a b = Some (fx_mult_spec (fx_width sw iw fw) fw a b).
+Proof.
+  intros Hs Hi Hf. unfold FixedPoint_mult. destruct (fx_zero_ok sw iw fw Hs Hi Hf) as [z ->].
+  cbv zeta. f_equal. unfold fx_mult_spec, fx_width. set (w := sw + iw + fw).
+  assert (Hw : 1 <= w) by (unfold w; lia).
+  change (Z.land ?x (py_shl 1 w - 1)) with (trunc w x). rewrite trunc_mod by lia.
+  unfold py_shr. rewrite shiftr_div by lia.
+  rewrite !signExtend_char by lia. unfold sign_extend_spec, c2_encode.
+  set (sa := c2_decode w a). set (sb := c2_decode w b).
+  apply div_mod_cong with (K := - sa * (sb / 2 ^ (w * 2)) - sb * (sa / 2 ^ (w * 2)) + (sa / 2 ^ (w * 2)) * (sb / 2 ^ (w * 2)) * 2 ^ (w * 2)) (n := w * 2);
+    try (unfold w; lia).
+  pose proof (pow2_pos (w * 2) ltac:(lia)) as Hp.
+  rewrite (Z.mod_eq sa (2 ^ (w * 2))), (Z.mod_eq sb (2 ^ (w * 2))) by lia. ring.
+Qed.
+
+(* with an unsigned format (sw = 0) the top bit is still read as a sign; below it the plain product is obtained *)
+Lemma fx_mult_small sw iw fw a b : 0 <= sw -> 1 <= iw -> 0 <= fw ->
+  let w := fx_width sw iw fw in
+  0 <= a < 2 ^ (w - 1) -> 0 <= b < 2 ^ (w - 1) ->
+  FixedPoint_mult sw iw fw a b = Some (((a * b) / 2 ^ fw) mod 2 ^ w).
+Proof.
+  intros Hs Hi Hf w Ha Hb. rewrite fx_mult_ok by lia. unfold fx_mult_spec. fold w.
+  assert (Hw : 1 <= w) by (unfold w, fx_width; lia).
+  pose proof (pow2_split w ltac:(lia)).
+  assert (Hd : forall x, 0 <= x < 2 ^ (w - 1) -> c2_decode w x = x).
+  { intros x Hx. unfold c2_decode, sgn. rewrite Z.mod_small by lia. destruct (Z.ltb_spec x (2 ^ (w - 1))); lia. }
+  rewrite !Hd by lia. reflexivity.
+Qed.
+
+Lemma fx_mult_unsigned_topbit :    (* FixedPoint(0,2,1, 2).mult(FixedPoint(0,2,1, 0.5)) : raw 4 * raw 1 -> raw 6 (3.0), plain product would be raw 2 (1.0) *)
+  FixedPoint_mult 0 2 1 4 1 = Some 6 /\ ((4 * 1) / 2 ^ 1) mod 2 ^ 3 = 2.
+Proof. vm_compute. split; reflexivity. Qed.
+
+(* finding #23: with no integer bits every operation raises (the model returns None) *)
+Lemma fx_iw0_raises sw fw a b : FixedPoint_add sw 0 fw a b = None /\ FixedPoint_sub sw 0 fw a b = None /\ FixedPoint_mult sw 0 fw a b = None.
+Proof.
+  unfold FixedPoint_add, FixedPoint_sub, FixedPoint_mult, FixedPoint_intToFixedPoint.
+  replace ((0 <? 0) && (sw =? 0)) with false by reflexivity. cbn [Z.sub Z.opp Z.add Z.ltb Z.compare Z.pos_sub]. repeat split.
+Qed.
+
+(* ------------------------------------------------------------------ field pack / unpack, any format *)
+Definition std_layout (ew mw : Z) : layout := mkLayout (ew + mw) mw (2 ^ ew - 1) mw.
+
+Lemma layouts_std : layout_hp = std_layout 5 10 /\ layout_sp = std_layout 8 23 /\ layout_dp = std_layout 11 52.
+Proof. repeat split. Qed.
+
+Lemma land1 x : Z.land x 1 = x mod 2.
+Proof. change 1 with (Z.ones 1) at 1. rewrite Z.land_ones by lia. reflexivity. Qed.
+
+Lemma land_pm1 x n : 0 <= n -> Z.land x (2 ^ n - 1) = x mod 2 ^ n.
+Proof. intros. replace (2 ^ n - 1) with (Z.ones n) by (rewrite Z.ones_equiv; lia). apply Z.land_ones; lia. Qed.
+
+Lemma pack_compose ew mw s e m : 0 <= ew -> 0 <= mw ->
+  FPNum_pack (std_layout ew mw) s e m = ieee_compose ew mw (s mod 2) (e mod 2 ^ ew) (m mod 2 ^ mw).
+Proof.
+  intros He Hm. unfold FPNum_pack, std_layout, ieee_compose; cbn [l_spos l_epos l_emask l_mbits].
+  rewrite land1, land_pm1 by lia. rewrite shl1 by lia. rewrite land_pm1 by lia.
+  pose proof (mod_pow2_range ew e He) as Hre. pose proof (mod_pow2_range mw m Hm) as Hrm.
+  unfold py_shl. rewrite <- Z.shiftl_shiftl by lia. rewrite <- Z.shiftl_lor.
+  rewrite lor_add_disjoint by lia. rewrite lor_add_disjoint by lia. reflexivity.
+Qed.
+
+Lemma unpack_fields ew mw v : 0 <= ew -> 0 <= mw ->
+  FPNum_unpack (std_layout ew mw) v = (fld_s ew mw v, fld_e ew mw v, fld_m ew mw v).
+Proof.
+  intros He Hm. unfold FPNum_unpack, std_layout, fld_s, fld_e, fld_m; cbn [l_spos l_epos l_emask l_mbits]; cbv zeta.
+  unfold py_shr. rewrite !shiftr_div by lia. rewrite land1, land_pm1 by lia. rewrite shl1, land_pm1 by lia. reflexivity.
+Qed.
+
+Section Fields.
+Variables ew mw : Z.
+Hypothesis He : 0 <= ew.
+Hypothesis Hm : 0 <= mw.
+
+Lemma compose_range s e m : 0 <= s <= 1 -> 0 <= e < 2 ^ ew -> 0 <= m < 2 ^ mw ->
+  0 <= ieee_compose ew mw s e m < 2 ^ (1 + ew + mw).
+Proof.
+  intros Hs Hee Hmm. unfold ieee_compose. rewrite !Z.pow_add_r by lia. change (2 ^ 1) with 2.
+  pose proof (pow2_pos ew He). pose proof (pow2_pos mw Hm). nia.
+Qed.
+
+Lemma fld_m_compose s e m : 0 <= m < 2 ^ mw -> fld_m ew mw (ieee_compose ew mw s e m) = m.
+Proof.
+  intros Hmm. unfold fld_m, ieee_compose. rewrite Z.add_comm, Z.mod_add by (apply Z.pow_nonzero; lia).
+  apply Z.mod_small; lia.
+Qed.
+
+Lemma compose_div s e m : 0 <= m < 2 ^ mw -> ieee_compose ew mw s e m / 2 ^ mw = s * 2 ^ ew + e.
+Proof.
+  intros Hmm. unfold ieee_compose. rewrite Z.div_add_l by (apply Z.pow_nonzero; lia).
+  rewrite Z.div_small by lia. lia.
+Qed.
+
+Lemma fld_e_compose s e m : 0 <= e < 2 ^ ew -> 0 <= m < 2 ^ mw -> fld_e ew mw (ieee_compose ew mw s e m) = e.
+Proof.
+  intros Hee Hmm. unfold fld_e. rewrite compose_div by lia.
+  rewrite Z.add_comm, Z.mod_add by (apply Z.pow_nonzero; lia). apply Z.mod_small; lia.
+Qed.
+
+Lemma fld_s_compose s e m : 0 <= s <= 1 -> 0 <= e < 2 ^ ew -> 0 <= m < 2 ^ mw -> fld_s ew mw (ieee_compose ew mw s e m) = s.
+Proof.
+  intros Hs Hee Hmm. unfold fld_s. rewrite Z.add_comm, Z.pow_add_r by lia.
+  rewrite <- Z.div_div by (try apply Z.pow_nonzero; try apply pow2_pos; lia).
+  rewrite compose_div by lia. rewrite Z.div_add_l by (apply Z.pow_nonzero; lia).
+  rewrite Z.div_small by lia. rewrite Z.add_0_r. apply Z.mod_small; lia.
+Qed.
+
+Lemma compose_fields v : ieee_compose ew mw (fld_s ew mw v) (fld_e ew mw v) (fld_m ew mw v) = v mod 2 ^ (1 + ew + mw).
+Proof.
+  unfold ieee_compose, fld_s, fld_e, fld_m.
+  pose proof (pow2_pos ew He) as Pe. pose proof (pow2_pos mw Hm) as Pm.
+  assert (Hdd : v / 2 ^ (ew + mw) = v / 2 ^ mw / 2 ^ ew).
+  { rewrite Z.add_comm, Z.pow_add_r by lia. rewrite Z.div_div by lia. reflexivity. }
+  rewrite Hdd. set (q1 := v / 2 ^ mw). set (q2 := q1 / 2 ^ ew).
+  assert (H1 : v = q1 * 2 ^ mw + v mod 2 ^ mw) by (unfold q1; rewrite Z.mul_comm; apply Z.div_mod; lia).
+  assert (H2 : q1 = q2 * 2 ^ ew + q1 mod 2 ^ ew) by (unfold q2; rewrite Z.mul_comm; apply Z.div_mod; lia).
+  assert (H3 : q2 = (q2 / 2) * 2 + q2 mod 2) by (rewrite Z.mul_comm; apply Z.div_mod; lia).
+  pose proof (Z.mod_pos_bound v (2 ^ mw) Pm) as B1. pose proof (Z.mod_pos_bound q1 (2 ^ ew) Pe) as B2.
+  pose proof (Z.mod_pos_bound q2 2 ltac:(lia)) as B3.
+  set (m := v mod 2 ^ mw) in *. set (e := q1 mod 2 ^ ew) in *. set (s := q2 mod 2) in *.
+  apply Z.mod_unique with (q2 / 2).
+  - left. apply (compose_range s e m); lia.
+  - rewrite H1 at 1. rewrite H2 at 1. rewrite H3 at 1. rewrite !Z.pow_add_r by lia. change (2 ^ 1) with 2. ring.
+Qed.
+End Fields.
+
+(* the statements about the code's functions *)
+Lemma unpack_pack ew mw s e m : 0 <= ew -> 0 <= mw ->
+  FPNum_unpack (std_layout ew mw) (FPNum_pack (std_layout ew mw) s e m) = (s mod 2, e mod 2 ^ ew, m mod 2 ^ mw).
+Proof.
+  intros He Hm. rewrite unpack_fields, pack_compose by lia.
+  pose proof (mod_pow2_range ew e He). pose proof (mod_pow2_range mw m Hm). pose proof (Z.mod_pos_bound s 2 ltac:(lia)).
+  rewrite fld_s_compose, fld_e_compose, fld_m_compose by lia. reflexivity.
+Qed.
+
+Lemma unpack_pack_id ew mw s e m : 0 <= ew -> 0 <= mw -> 0 <= s <= 1 -> 0 <= e < 2 ^ ew -> 0 <= m < 2 ^ mw ->
+  FPNum_unpack (std_layout ew mw) (FPNum_pack (std_layout ew mw) s e m) = (s, e, m).
+Proof. intros. rewrite unpack_pack by lia. rewrite !Z.mod_small by lia. reflexivity. Qed.
+
+Lemma pack_unpack ew mw v : 0 <= ew -> 0 <= mw ->
+  (let '(s, e, m) := FPNum_unpack (std_layout ew mw) v in FPNum_pack (std_layout ew mw) s e m) = v mod 2 ^ (1 + ew + mw).
+Proof.
+  intros He Hm. rewrite unpack_fields by lia. rewrite pack_compose by lia.
+  unfold fld_s at 1. rewrite Z.mod_mod by lia. unfold fld_e at 1. rewrite Z.mod_mod by (apply Z.pow_nonzero; lia).
+  unfold fld_m at 1. rewrite Z.mod_mod by (apply Z.pow_nonzero; lia).
+  apply compose_fields; lia.
+Qed.
+
+Lemma pack_unpack_id ew mw v : 0 <= ew -> 0 <= mw -> 0 <= v < 2 ^ (1 + ew + mw) ->
+  (let '(s, e, m) := FPNum_unpack (std_layout ew mw) v in FPNum_pack (std_layout ew mw) s e m) = v.
+Proof. intros. rewrite pack_unpack by lia. apply Z.mod_small; lia. Qed.
+
+(* FloatingPointHelper.unpack (unmasked sign) agrees with the masked one on patterns of the format *)
+Lemma fph_unpack_eq ew mw v : 0 <= ew -> 0 <= mw -> 0 <= v < 2 ^ (1 + ew + mw) ->
+  FPH_unpack (std_layout ew mw) v = FPNum_unpack (std_layout ew mw) v.
+Proof.
+  intros He Hm Hv. unfold FPH_unpack, FPNum_unpack, std_layout; cbn [l_spos l_epos l_emask l_mbits]; cbv zeta.
+  f_equal. f_equal. rewrite land1. unfold py_shr. rewrite shiftr_div by lia.
+  symmetry. apply Z.mod_small. pose proof (pow2_pos (ew + mw) ltac:(lia)).
+  split; [apply Z.div_pos; lia|]. apply Z.div_lt_upper_bound; [lia|].
+  replace (1 + ew + mw) with (1 + (ew + mw)) in Hv by lia. rewrite Z.pow_add_r in Hv by lia. change (2 ^ 1) with 2 in Hv. lia.
+Qed.
+
+Lemma fph_assemble_compose ew mw s e m : 0 <= ew -> 0 <= mw -> 0 <= e < 2 ^ ew -> 0 <= m < 2 ^ mw ->
+  FPH_assemble (std_layout ew mw) s e m = ieee_compose ew mw s e m.
+Proof.
+  intros He Hm Hee Hmm. unfold FPH_assemble, std_layout, ieee_compose; cbn [l_spos l_epos l_emask l_mbits].
+  unfold py_shl. rewrite <- Z.shiftl_shiftl by lia. rewrite <- Z.shiftl_lor.
+  rewrite lor_add_disjoint by lia. rewrite lor_add_disjoint by lia. reflexivity.
 Qed.
